@@ -98,4 +98,114 @@ def signatures5 : List (List Rank × Bool) :=
   (multisets 13 0 5).flatMap fun rs =>
     (if allSame rs then [] else [(rs, false)]) ++ (if strictlyIncreasing rs then [(rs, true)] else [])
 
+
+/-! ### the other rankings -/
+
+/-- the value of a rank with the ace low: `A = 1, 2 … 10, J = 11, Q = 12, K = 13` -/
+def valueLow (r : Rank) : Nat := r + 1
+
+/-- short-deck (six-plus) hold'em: the ranks 6 … A; A-9-8-7-6 is the lowest straight; **a flush beats a
+    full house**.  Categories: high card 0, one pair 1, two pair 2, three of a kind 3, straight 4,
+    full house 5, flush 6, four of a kind 7, straight flush 8 -/
+def straightTopShort : List Nat → Option Nat
+  | [a, b, c, d, e] =>
+    if a = b + 1 ∧ b = c + 1 ∧ c = d + 1 ∧ d = e + 1 then some a
+    else if a = 14 ∧ b = 9 ∧ c = 8 ∧ d = 7 ∧ e = 6 then some 9
+    else none
+  | _ => none
+
+def shortDeckKey (ranks : List Rank) (suited : Bool) : List Nat :=
+  let gs := groupsFrom (ranks.map valueHigh) 14
+  let quads := withCount 4 gs
+  let trips := withCount 3 gs
+  let pairs := withCount 2 gs
+  let singles := withCount 1 gs
+  let tiebreak := quads ++ trips ++ pairs ++ singles
+  match straightTopShort singles, suited with
+  | some t, true => [8, t]
+  | top, _ =>
+    if quads.length = 1 then 7 :: tiebreak
+    else if suited then 6 :: tiebreak
+    else if trips.length = 1 ∧ pairs.length = 1 then 5 :: tiebreak
+    else match top with
+      | some t => [4, t]
+      | none =>
+        if trips.length = 1 then 3 :: tiebreak
+        else if pairs.length = 2 then 2 :: tiebreak
+        else if pairs.length = 1 then 1 :: tiebreak
+        else 0 :: tiebreak
+
+/-- the table label of a short-deck category (labels are numbered as in the standard ranking) -/
+def shortDeckLabel (key : List Nat) : Nat :=
+  match key.headD 99 with
+  | 5 => 6
+  | 6 => 5
+  | c => c
+
+/-- is the rank one of the short deck (6 … K, A) -/
+def isShortRank (r : Rank) : Bool := r = 0 || 5 ≤ r
+
+/-- ace-to-five low (razz): the ace is low, straights and flushes do not count; **smaller is better**.
+    Categories: no pair 0, one pair 1, two pair 2, three of a kind 3, full house 4, four of a kind 5 -/
+def regularLowKey (ranks : List Rank) (_suited : Bool) : List Nat :=
+  let gs := groupsFrom (ranks.map valueLow) 13
+  let quads := withCount 4 gs
+  let trips := withCount 3 gs
+  let pairs := withCount 2 gs
+  let singles := withCount 1 gs
+  let tiebreak := quads ++ trips ++ pairs ++ singles
+  if quads.length = 1 then 5 :: tiebreak
+  else if trips.length = 1 ∧ pairs.length = 1 then 4 :: tiebreak
+  else if trips.length = 1 then 3 :: tiebreak
+  else if pairs.length = 2 then 2 :: tiebreak
+  else if pairs.length = 1 then 1 :: tiebreak
+  else 0 :: tiebreak
+
+def regularLowLabel (key : List Nat) : Nat :=
+  match key.headD 99 with
+  | 4 => 6
+  | 5 => 7
+  | c => c
+
+/-- eight-or-better low: five different ranks, none above the eight, ace low; the cards from the highest
+    down, **smaller is better** -/
+def eightOrBetterKey (ranks : List Rank) (_suited : Bool) : List Nat :=
+  withCount 1 (groupsFrom (ranks.map valueLow) 13)
+
+def qualifiesEight (ranks : List Rank) : Bool :=
+  strictlyIncreasing ranks && ranks.all (· ≤ 7)
+
+/-- badugi (one to four cards of different ranks and suits): more cards first, then the cards from the
+    highest down, **smaller is better**; `value` decides whether the ace is low (badugi) or high -/
+def badugiKey (value : Rank → Nat) (ranks : List Rank) (_suited : Bool) : List Nat :=
+  (4 - ranks.length) :: withCount 1 (groupsFrom (ranks.map value) 14)
+
+/-- Kuhn poker: one card, J < Q < K -/
+def kuhnKey (ranks : List Rank) (_suited : Bool) : List Nat := ranks.map valueLow
+
+/-- the signatures of `k` cards (`k ≤ 4`, so any multiset of ranks can occur) that are rainbow: one
+    card counts as suited, several rainbow cards do not -/
+def signaturesRainbow (k : Nat) : List (List Rank × Bool) :=
+  (multisets 13 0 k).map fun rs => (rs, k == 1)
+
+
+/-! ### the families the tables are checked on -/
+
+/-- the label of a category when categories are numbered like the labels (standard ranking) -/
+def categoryLabel (key : List Nat) : Nat := key.headD 99
+
+def noLabel (_ : List Nat) : Nat := 0
+
+def shortDeckSigs : List (List Rank × Bool) := signatures5.filter fun s => s.1.all isShortRank
+def shortDeckOther : List (List Rank × Bool) := signatures5.filter fun s => !s.1.all isShortRank
+def eightSigs : List (List Rank × Bool) := signatures5.filter fun s => qualifiesEight s.1
+def eightOther : List (List Rank × Bool) := signatures5.filter fun s => !qualifiesEight s.1
+def rainbowSigs : List (List Rank × Bool) :=
+  signaturesRainbow 1 ++ signaturesRainbow 2 ++ signaturesRainbow 3 ++ signaturesRainbow 4
+def badugiSigs : List (List Rank × Bool) := rainbowSigs.filter fun s => strictlyIncreasing s.1
+def badugiOther : List (List Rank × Bool) := rainbowSigs.filter fun s => !strictlyIncreasing s.1
+def isKuhnRank (r : Rank) : Bool := 10 ≤ r
+def kuhnSigs : List (List Rank × Bool) := (signaturesRainbow 1).filter fun s => s.1.all isKuhnRank
+def kuhnOther : List (List Rank × Bool) := (signaturesRainbow 1).filter fun s => !s.1.all isKuhnRank
+
 end PK.Spec
